@@ -45,6 +45,8 @@ func valToGo(v Val) any {
 		return v.B
 	case "bytes":
 		return append([]byte{}, v.X...)
+	case "rstr":
+		return string(v.X)
 	case "null":
 		return literal.Null()
 	case "list":
@@ -76,6 +78,8 @@ func valToCB(v Val) *CB {
 		return cbBool(v.B)
 	case "bytes":
 		return cbBytes(append([]byte{}, v.X...))
+	case "rstr":
+		return &CB{Major: 3, Data: append([]byte{}, v.X...)}
 	case "null":
 		return cbNull()
 	case "list":
